@@ -367,7 +367,9 @@ class BufferedFile(ClosingContextManager):
 
         :returns: file position (`number <int>` of bytes).
         """
-        return self._pos
+        # data accepted by `write` but still sitting in the write buffer is
+        # part of the position, as it is for Python file objects
+        return self._pos + self._wbuffer.tell()
 
     def write(self, data):
         """
